@@ -665,7 +665,7 @@ func main() {
 		lineCase("1", s, "bigexp", false)
 	}
 
-	n := hx.N(12000, 400000)
+	n := hx.N(60000, 1200000)
 	for i := 0; i < n; i++ {
 		if i%4 == 0 {
 			it, itag := genIters(r)
@@ -676,7 +676,7 @@ func main() {
 		}
 	}
 	// direct stage cases
-	m := hx.N(3000, 100000)
+	m := hx.N(15000, 300000)
 	for i := 0; i < m; i++ {
 		mant := r.U64() >> uint(10+r.Intn(54))
 		if r.Chance(1, 8) {
